@@ -56,3 +56,37 @@ Arguments indb {R} _. Arguments is_word {R} _ _ _ _ _. Arguments hits {R} _ _ _ 
 Arguments T1 {R} _ _ _ _. Arguments T2 {R} _ _ _ _ _.
 Arguments xxz_formula {R} _ _ _ _ _ _. Arguments bose_formula {R} _ _ _ _ _. Arguments fermi_formula {R} _ _ _ _ _.
 Arguments ising_formula {R} _ _ _ _ _. Arguments linferm_formula {R} _ _ _.
+
+(* ---- charges of local operators and the word adjoint (used by the finite checks of C06) ---- *)
+From PT Require Import Base.Mx Model.GraphMPO Model.Hamiltonians.
+Section Charges.
+  Variable R : cring.
+  (* every non-zero entry M[s,t] changes the physical charge by dq:  qd[s] - qd[t] = dq *)
+  Definition op_charge_okb (qd : list Z) (M : mx R) (dq : Z) : bool :=
+    forallb (fun s => forallb (fun t => keqb R (get M s t) (k0 R) || (nth s qd 0 - nth t qd 0 =? dq)) (seq 0 (nc M))) (seq 0 (nr M)).
+  (* along a chain the operator at position k carries the difference of the interleaved bond charges *)
+  Fixpoint chain_charges_okb (qd : list Z) (om : Z -> mx R) (oids qnums : list Z) : bool :=
+    match oids, qnums with
+    | [], _ => true
+    | o :: os, q0 :: ((q1 :: _) as qs) => op_charge_okb qd (om o) (q1 - q0) && chain_charges_okb qd om os qs
+    | _, _ => false
+    end.
+  Definition spec_charges_okb (sp : hamspec R) : bool :=
+    let om := opmap_of (h_opmap sp) in
+    op_charge_okb (h_qd sp) (om (h_idn sp)) 0 &&
+    forallb (fun c => chain_charges_okb (h_qd sp) om (c_oids c) (c_qnums c)) (h_lop sp) &&
+    forallb (fun p => Nat.eqb (nr (snd p)) (length (h_qd sp)) && Nat.eqb (nc (snd p)) (length (h_qd sp)) && wfb (snd p)) (h_opmap sp).
+  (* adjoint of a chain: operator ids mapped by [adjo], bond charges negated, coefficient conjugated *)
+  Definition chain_adj (adjo : Z -> Z) (c : chain R) : chain R :=
+    mkchain (map adjo (c_oids c)) (map Z.opp (c_qnums c)) (kconj R (c_coeff c)) (c_istart c).
+  (* opmap(adj o) = opmap(o)^H on the listed ids *)
+  Definition opmap_adj_okb (om : list (Z * mx R)) (adjo : Z -> Z) : bool :=
+    forallb (fun p => mxeqb (adjmx (snd p)) (opmap_of om (adjo (fst p)))) om.
+End Charges.
+Arguments op_charge_okb {R} _ _ _. Arguments chain_charges_okb {R} _ _ _ _. Arguments spec_charges_okb {R} _.
+Arguments chain_adj {R} _ _. Arguments opmap_adj_okb {R} _ _.
+(* S+ <-> S-, b <-> b^dag, C <-> A  (ids 1 <-> -1);  Fermi-Hubbard: CI <-> AI, CZ <-> AZ, IC <-> IA, ZC <-> ZA *)
+Definition adjo_pm (o : Z) : Z := if o =? 1 then -1 else if o =? -1 then 1 else o.
+Definition adjo_fermi (o : Z) : Z :=
+  if o =? 1 then 2 else if o =? 2 then 1 else if o =? 3 then 4 else if o =? 4 then 3 else
+  if o =? 5 then 6 else if o =? 6 then 5 else if o =? 7 then 8 else if o =? 8 then 7 else o.
